@@ -43,6 +43,49 @@ claim(
     "Assumes the scope bounds (<=64x64 pictures, depths <=4, <=16x16 slices, excursions <=2^20) implemented by wrapping the decoder's level-constraint assertion in the harness process; SimFile stands in for real files; faults are at rest (persistent).",
 )
 
+_A_NOTE = "Assumes the scope bounds (<=64x64 pictures, depths <=4, <=16x16 slices, excursions <=2^20) enforced in the harness process only; SimFile/SimFS stand in for real files; faults are at rest (every receiver sees the same faulted bytes). Sampling, not proof."
+
+claim(
+    "C06",
+    "A (byte channel)",
+    "DESIGN.md §4, §8 C06",
+    "deterministic simulation: seeded fault-sequence search on stored streams, round trip through the real deserialiser and serialiser",
+    "Seeded search over fault sequences applied to real encoder output (including padding/auxiliary units), weighted towards parse offsets, header varints, slice length bytes and payload bits; every faulted stream the real Deserialiser parses to completion is re-serialised by the real Serialiser and deserialised again; bytes and descriptions must be identical. Unparseable inputs are outside the property's domain and are discarded (counted).",
+    _A_NOTE,
+)
+claim(
+    "C08",
+    "A (byte channel)",
+    "DESIGN.md §4, §8 C08",
+    "deterministic simulation: seeded fault-sequence search; differential oracle between the real validator (state tapped at picture_decode) and the real deserialiser with harness-side dequantisation/DC prediction",
+    "Seeded search over fault sequences (mostly slice payload bits, length bytes, header fields) on real encoder output; for every stream the real validator still accepts, the real deserialiser must list the same data units, parse parameters, decoded video parameters, transform parameters and quantisation matrix, and its coefficients (placed, dequantised and DC-predicted by independent harness code) must equal the validator's transform data captured at picture_decode.",
+    _A_NOTE + " Slice geometry helpers are shared between both parsers and the oracle.",
+)
+claim(
+    "C09",
+    "A (byte channel)",
+    "DESIGN.md §4, §8 C09",
+    "deterministic simulation: seeded fault-sequence search producing accepted streams with arbitrary coefficient payloads; per-picture invariants on the output callback",
+    "Seeded search over fault sequences on real encoder output; for every stream the real validator accepts, every picture delivered to the output callback must have the component sizes implied by the decoded header and coding mode (harness arithmetic), integer samples within [0, 2^depth-1], the picture number coded in the raw bytes of its data unit, and there must be exactly one callback per picture unit / first fragment.",
+    _A_NOTE,
+)
+claim(
+    "C25",
+    "A + C (byte channel, simulated file system)",
+    "DESIGN.md §4, §6, §8 C25",
+    "deterministic simulation: validator command run in-process on a simulated file system over seeded faulted streams; reference = library validator on the same bytes + harness-side raw/JSON reader",
+    "Seeded search over fault sequences, --output patterns and status-line settings; vc2-bitstream-validator main() runs in-process with its open/os (and file_format's open) bound to a simulated file system. Exit status must be 0 iff the library accepts and 2 iff it raises a ConformanceError (never 3 or 1); on 0 exactly one raw/json pair per callback picture, numbered from 0, with contents equal to the decoder output as read by an independent harness reader; on 2 a located, non-empty explanation.",
+    _A_NOTE + " Output-side I/O errors (missing directory, full disk) are not injected: the statement quantifies over input files only.",
+)
+claim(
+    "C26",
+    "A + C (byte channel, simulated file system and clock)",
+    "DESIGN.md §4, §6, §8 C26",
+    "deterministic simulation: viewer run in-process on a simulated file system with a seeded simulated clock over seeded faulted streams and random bytes",
+    "Seeded search over fault sequences and random bytes; vc2-bitstream-viewer main() runs in-process with open/os/time bound to the simulated file system and a simulated clock that jumps forwards, backwards or stands still, and with the status-line interval randomised. Under default display options main() must return 0, 2, 3 or 4, never 255, and raise nothing. A sampled-options arm is observe-only and never judged.",
+    _A_NOTE + " Scope decided by a pre-scan with the real MonitoredDeserialiser.",
+)
+
 NOT_BUILT = "check not built yet in this tree (planned: DESIGN.md §8); not claimed until it runs clean"
 
 
